@@ -13,7 +13,7 @@ ID = "C13"
 LEVEL = "exploration"
 RULE = (
     "kinds: primes (get_n_primes for growing/shrinking n vs an independent sieve), halton-fn (halton() at start indices "
-    "over [0, 2^16+2^12): boundaries, powers of each base +-1, random; d 1-40; vs exact Fraction radical inverse), "
+    "over [0, 2^16+2^12): boundaries, powers of each base +-1, random, and once per run every prime power of the first 40 primes +-1 in 40 dimensions; d 1-40; vs exact Fraction radical inverse), "
     "halton-sampler (seeded HaltonSampler on the 2^-20 grid: start index recovered from coordinate 0 and bounded, the "
     "draw log shows the requested range, equal seeds equal starts, batch sequences n1+n2+.. equal one batch of the "
     "total from a twin, grid level equals snap(reference)), rseq (differences equal phi_d^-j mod 1 with phi_d from a "
@@ -28,7 +28,7 @@ ASSUMPTIONS = [
     "the first point may be counted as k=0 or k=1: first emitted index accepted in [20, 2^16]; the draw log must show the start requested from exactly [20, 2^16)",
     "grid-level comparison skips reference points within 1e-9 of a cell mid-point",
 ]
-REQUIRED_COUNTERS = {"lifecycle_draws": 60, "lifecycle_pickle_roundtrips": 8, "lifecycle_reseed_same_seed": 5, "lifecycle_space_changes": 5, "lifecycle_draws_above_1024": 3, "cursor_placed_near_boundary": 10, "halton_points": 1500, "prime_tables": 20, "sampler_objects": 40, "split_sequences": 40, "rseq_points": 400, "start_draws_logged": 40}
+REQUIRED_COUNTERS = {"halton_prime_power_indices": 200, "lifecycle_draws": 60, "lifecycle_pickle_roundtrips": 8, "lifecycle_reseed_same_seed": 5, "lifecycle_space_changes": 5, "lifecycle_draws_above_1024": 3, "cursor_placed_near_boundary": 10, "halton_points": 1500, "prime_tables": 20, "sampler_objects": 40, "split_sequences": 40, "rseq_points": 400, "start_draws_logged": 40}
 SHARDS = {"quick": 8, "thorough": 16}
 
 
@@ -258,6 +258,22 @@ def run_case(desc, ctx):
         return out
 
     if kind == "halton-fn":
+        if desc["i"] % 24 == 0:
+            # every power p^m (p among the first 40 primes) below 2^16 + 2^12: the indices at which a digit is added in some base
+            bases40 = sieve(40)
+            powers = sorted({pb**e for pb in bases40 for e in range(1, 18) if pb**e < 2**16 + 2**12 - 3})
+            for pw in powers:
+                got = H.halton(3, np.array(bases40), pw - 2)          # indices pw-1, pw, pw+1
+                for k in range(3):
+                    idx = pw - 1 + k
+                    ref = np.array([float(radical_inverse(idx, bb)) for bb in bases40])
+                    c["halton_points"] = c.get("halton_points", 0) + 1
+                    c["halton_prime_power_indices"] = c.get("halton_prime_power_indices", 0) + 1
+                    if not np.all(np.abs(got[k] - ref) <= 1e-12):
+                        j = int(np.argmax(np.abs(got[k] - ref)))
+                        bad(f"halton point for index {idx} (next to the prime power {pw}), base {bases40[j]}: {got[k, j]!r}, radical inverse is {ref[j]!r}", {"d": 40, "start": pw - 2})
+                        break
+            out["evals"] += 3 * len(powers)
         for _ in range(6):
             d = int(rng.choice([1, 2, 3, 4, 5, 8, 13, 40, int(rng.integers(1, 41))]))
             bases = sieve(d)
